@@ -101,4 +101,46 @@ def run(F, G):
     n += 1
     if b is None or any("panic" in c.f for c in b.calls):
         fails.append("effect control good_decode: spurious panic call")
+    # 6. variant-sensitive must-pass: the None arm of `ours` must reach push
+    for name, want in (("good_tail_pushed", True), ("bad_tail_dropped", False)):
+        b = body(name)
+        n += 1
+        if b is None:
+            fails.append("fixture %s missing" % name)
+            continue
+        pushes = [c for c in b.calls if c.name() == "push"]
+        ve = flow.variant_edges(b, [2])
+        rets = b.return_blocks()
+        if not pushes or not ve or not rets:
+            fails.append("%s: push / match on `ours` / return not found" % name)
+            continue
+        sw, m, other = ve[0]
+        none_t = m.get(0, other)
+        plain = any(r in b.reachable(none_t, no_nodes=(pushes[0].bb,)) for r in rets)
+        sens = any(r in flow.variant_reach(b, none_t, no_nodes=(pushes[0].bb,)) for r in rets)
+        if not plain:
+            fails.append("variant control %s: path-insensitive reachability unexpectedly precise (fixture no longer exercises the infeasible path)" % name)
+        if (not sens) != want:
+            fails.append("variant control %s: None-arm-must-push = %s, expected %s" % (name, not sens, want))
+
+    # 7. loop left only at exhaustion
+    for name, want in (("good_drain", True), ("bad_drain_stops_early", False)):
+        b = body(name)
+        n += 1
+        if b is None:
+            fails.append("fixture %s missing" % name)
+            continue
+        nx = [c for c in b.calls if c.name() == "next"]
+        after = [c for c in b.calls if c.name() == "push" and "Vec" not in c.f]
+        if not nx or not after:
+            fails.append("%s: next()/push not found" % name)
+            continue
+        ve = flow.variant_edges(b, nx[0].dest)
+        if not ve:
+            fails.append("%s: match on next() not found" % name)
+            continue
+        sw, m, other = ve[0]
+        got = after[0].bb not in b.reachable(nx[0].bb, no_edges=[(sw, m.get(0, other))])
+        if got != want:
+            fails.append("exhaustion control %s: leaves-only-at-None = %s, expected %s" % (name, got, want))
     return n, fails
